@@ -154,16 +154,22 @@ class OptionBag:
         for item in self.sectitems:
             optpath, val, pos = item
             s = optpath[0]
-            bk = self.basic_key(s, pos)
             if name and self._normalize_case(s) == name:
                 L.append((optpath[1:], val, pos))
-            elif bk == type_:
+            elif self._names_type(s, type_):
                 L.append((optpath[1:], val, pos))
             else:
                 R.append(item)
         if L:
             self.sectitems[:] = R
             return OptionBag(self.schema, self.schema.gettype(type_), L)
+
+    def _names_type(self, s, type_):
+        try:
+            return self._basic_key(s) == type_
+        except ValueError:
+            # not a legal type name, so it can only address a section by name
+            return False
 
     def finish(self):
         if self.sectitems or self.keypairs:
